@@ -167,7 +167,7 @@ Section Inv.
         * exact Hc'.
     - pose proof (draw_to_term_top_eq (texts ++ bars) (tt_n tg) (tt_below tg) W H) as Heq.
       rewrite Ed in Heq. injection Heq as Hops _ _. rewrite Hops.
-      intros Hnil. apply app_eq_nil in Hnil. destruct Hnil as [_ Hnil].
-      unfold clear_ops in Hnil. discriminate.
+      intros Hemp. apply app_eq_nil in Hemp. destruct Hemp as [_ Hemp].
+      unfold clear_ops in Hemp. discriminate.
   Qed.
 End Inv.
